@@ -294,12 +294,12 @@ def _(c):
         c.ensure("multi_raise", c.raises(TleParseError, lambda: list(Tle.from_string(text, error="raise"))))
 
 
-ENTRY_KINDS = ["valid", "valid_named", "valid_named_0", "bad_checksum", "bad_checksum_named", "bad_length", "comment", "blank"]
+ENTRY_KINDS = ["valid", "valid_named", "valid_named_0", "bad_checksum", "bad_checksum_named", "bad_length", "comment", "blank", "orphan_line1", "orphan_line1_named"]
 
 
 def _grid_multi(tier, rng):
     """every text made of 1..3 (quick) / 1..4 (thorough) items drawn from {valid 2-line entry, valid entry with a name line, with a '0 ' name line, entry with a corrupted
-    checksum (with / without name line), entry with a short line, comment line, blank line}: exhaustive"""
+    checksum (with / without name line), entry with a short line, comment line, blank line, an entry cut short after its first line (with / without name line)}: exhaustive"""
     n = len(ENTRY_KINDS)
     for L in (1, 2, 3) if tier == "quick" else (1, 2, 3, 4):
         for seq in itertools.product(range(n), repeat=L):
@@ -322,6 +322,11 @@ def _(c):
             lines.append("# a comment")
         elif kind == "blank":
             lines.append("")
+        elif kind.startswith("orphan_line1"):
+            # an entry cut short: its first line (with or without a name line), no second line -- a stray line, not an entry
+            if kind.endswith("named"):
+                lines.append(name)
+            lines.append(l1)
         else:
             if kind.endswith("named"):
                 lines.append(name)
